@@ -37,6 +37,8 @@ THEOREMS = [
     "Gozod.C12Opts.c12_opts_deterministic", "Gozod.C12Opts.c12_opts_after_others", "Gozod.C12Opts.c12_opts_twice",
     "Gozod.C12Opts.c12_opts_hist", "Gozod.C12Opts.c12_opts_full_with_clone", "Gozod.C12Opts.c12_opts_partial",
     "Gozod.C12Opts.override_edits_registry_examples", "Gozod.C12Opts.c12_opts_full_false", "Gozod.C12Opts.ovw_ok",
+    "Gozod.C12Opts.convLiteral_fresh", "Gozod.C12Opts.c12_override_members_ext", "Gozod.C12Opts.c12_override_members_def_kept",
+    "Gozod.C12Opts.inplace_members_not_fresh",
 ]
 
 OPT_NAMES = ["default", "io-input", "unrepresentable-any", "reused-ref", "draft-07", "cycles-throw",
@@ -168,9 +170,12 @@ def run(res):
             C.tie_broken(res, "driver_c12 does not build", outd[-3000:])
             return res.finish()
         C.os.environ["C12_GEN_ALSO"] = GEN
+        tb = time.time()
+        C.build_harness("C12")      # timed separately (correspond builds again: a no-op then); slow only after /repo moved
+        timing["harness_go_build_incl_go_lock_wait_s"] = round(time.time() - tb, 1)
         t2 = time.time()
         data, err = C.correspond(res, "C12")
-        timing["harness_build_run_and_driver_s"] = round(time.time() - t2, 1)
+        timing["harness_relink_run_and_driver_s"] = round(time.time() - t2, 1)
         t3 = time.time()
         ok, detail = C.prove(res, MODULES, THEOREMS)
         timing["proofs_incl_lake_lock_wait_s"] = round(time.time() - t3, 1)
